@@ -296,7 +296,21 @@ func (c *FnCtx) instr(fr *frame, st *State, in ssa.Instruction) {
 	case *ssa.Next:
 		fr.regs[t] = c.rangeNext(fr, st, t)
 	case *ssa.Select:
-		bail("select statement")
+		// any ready case may be chosen (default: -1 when non-blocking);
+		// received values are arbitrary, sends are skips
+		tt := t.Type().(*types.Tuple)
+		idx := c.declare("selidx", "Int")
+		lo := "0"
+		if !t.Blocking {
+			lo = "-1"
+		}
+		c.assume(st, and(sx("<=", lo, idx), sx("<", idx, num(int64(len(t.States))))))
+		fields := []Val{intVal(tt.At(0).Type(), idx), boolVal(c.declare("selok", "Bool"))}
+		for i := 2; i < tt.Len(); i++ {
+			fields = append(fields, c.freshVal(st, tt.At(i).Type(), "selrecv"))
+		}
+		fr.regs[t] = Val{K: kTuple, T: tt, Fields: fields}
+		c.note("%s: select at %s: any case may be taken; received values arbitrary (blocking not modelled)", shortFunc(fr.fn.String()), c.posString(t.Pos()))
 	case *ssa.MultiConvert:
 		bail("generic conversion")
 	default:
